@@ -5,6 +5,7 @@ import (
 	"sort"
 
 	"verif/mc/bind"
+	"verif/mc/ref/refcodec"
 )
 
 // The remaining-length family of the grammar explorer (C01, C03, C04, C10).
@@ -224,10 +225,158 @@ func depLens(s *bind.Slot) []int {
 	return out
 }
 
+// contentDirected: the hand-written statements of a message's decoder mention these elements (own case or mandatory
+// part, or the encoder): their contents may be interpreted. Every string of up to four octets over an eleven-value
+// alphabet (small counts and lengths, the two protocol discriminators, sign and wrap boundaries) and of five octets
+// over {00,01,02,FF}, zero-padded to the element's minimum length and also followed by a
+// counting tail, is given to each variable-length element involved — jointly with 32 values (all low nibbles x two
+// high nibbles) of each one-octet mandatory element involved.
+func (x *codecExplorer) contentDirected(m *bind.Msg, slots []int) {
+	var ones, vars, opts []int
+	for _, i := range slots {
+		s := &m.Slots[i]
+		switch {
+		case s.Optional && (s.Half || s.LenSize == 0):
+			opts = append(opts, i)
+		case s.Half:
+		case s.LenSize == 0 && s.Max == 1 && !s.Optional:
+			if s.Name != "ExtendedProtocolDiscriminator" && !(isMsgIdentity(s.Name) && m.MsgType >= 0) && !(i == 1 && m.Family == "gmm") {
+				ones = append(ones, i)
+			}
+		case s.LenSize > 0:
+			vars = append(vars, i)
+		}
+	}
+	alpha := []byte{0x00, 0x01, 0x02, 0x03, 0x04, 0x2E, 0x7E, 0x7F, 0x80, 0xFE, 0xFF}
+	// the optional fixed-size elements mentioned: absent, present with two different values
+	optVariants := [][]byte{nil}
+	for _, oi := range opts {
+		var next [][]byte
+		for _, b := range optVariants {
+			next = append(next, b,
+				append(append([]byte{}, b...), renderTok(m, tok{Slot: oi})...),
+				append(append([]byte{}, b...), renderTok(m, tok{Slot: oi, Pat: 1})...))
+		}
+		optVariants = next
+		if len(optVariants) > 27 {
+			break
+		}
+	}
+	for _, vi := range vars {
+		s := &m.Slots[vi]
+		for a0 := range alpha {
+			if !x.mine() {
+				continue
+			}
+			if !x.c.Begin("contentdirected", m.Name, map[string]any{"msg": m.Name, "slot": s.Name, "first": alpha[a0]}) {
+				continue
+			}
+			buf := make([]byte, 5)
+			buf[0] = alpha[a0]
+			var gen func(l, pos int)
+			runOne := func(content []byte) {
+				x.c.Tick()
+				b := append([]byte{}, content...)
+				for len(b) < s.Min {
+					b = append(b, 0)
+				}
+				if len(b) > s.Max {
+					return
+				}
+				t := tok{Slot: vi, L: len(b), Raw: string(b)}
+				if len(b) == 0 {
+					t = tok{Slot: vi, L: 0}
+				}
+				ovs := []map[int]tok{{}}
+				for _, oi := range ones {
+					var next []map[int]tok
+					for _, base := range ovs {
+						for hi := 0; hi < 2; hi++ {
+							for lo := 0; lo < 16; lo++ {
+								mm := map[int]tok{}
+								for k, v := range base {
+									mm[k] = v
+								}
+								mm[oi] = tok{Pat: 1000 + (hi*0xF0 | lo)}
+								next = append(next, mm)
+							}
+						}
+					}
+					ovs = next
+					if len(ovs) > 1024 {
+						break
+					}
+				}
+				for _, ov := range ovs {
+					var full []byte
+					if s.Optional {
+						full = append(renderMandatoryMulti(m, ov), renderTok(m, t)...)
+					} else {
+						ov[vi] = t
+						full = renderMandatoryMulti(m, ov)
+					}
+					for _, extra := range optVariants {
+						x.states++
+						x.trans++
+						if len(extra) == 0 {
+							x.run1(m, full)
+						} else {
+							x.run1(m, append(append([]byte{}, full...), extra...))
+						}
+					}
+				}
+			}
+			gen = func(l, pos int) {
+				if pos == l {
+					runOne(buf[:l])
+					if l >= 3 {
+						runOne(append(append([]byte{}, buf[:l]...), 1, 2, 3, 4, 5, 6, 7, 8, 9))
+					}
+					return
+				}
+				for _, v := range alpha {
+					buf[pos] = v
+					gen(l, pos+1)
+				}
+			}
+			for l := 1; l <= 4; l++ {
+				gen(l, 1)
+				x.c.Tick()
+			}
+			// length five over a reduced alphabet
+			full := alpha
+			alpha = []byte{0x00, 0x01, 0x02, 0xFF}
+			gen(5, 1)
+			alpha = full
+			x.c.Tick()
+		}
+	}
+}
+
 func (x *codecExplorer) depFamily(m *bind.Msg) {
 	deps := loadCodeDeps()[m.Name]
 	if len(deps) == 0 {
 		return
+	}
+	{
+		// elements whose contents a hand-written statement may interpret
+		seen := map[int]bool{}
+		var slots []int
+		for own, others := range deps {
+			for _, n := range append([]string{own}, others...) {
+				for i := range m.Slots {
+					if m.Slots[i].Name == n && !seen[i] {
+						seen[i] = true
+						slots = append(slots, i)
+					}
+				}
+			}
+		}
+		sort.Ints(slots)
+		if len(slots) > 0 {
+			x.c.Note(fmt.Sprintf("content-directed exploration: %s, elements %v", m.Name, slots))
+			x.contentDirected(m, slots)
+		}
 	}
 	slotIdx := func(name string) int {
 		for i := range m.Slots {
@@ -333,6 +482,203 @@ func (x *codecExplorer) depFamily(m *bind.Msg) {
 		}
 		if x.maxDepth < len(group) {
 			x.maxDepth = len(group)
+		}
+	}
+}
+
+// The structured-content family. Element contents are opaque to the generated decoders, so the other families fill
+// them with patterns. A hand-written step that *interprets* contents — unpacks a nested NAS message, trims an EAP
+// packet to its inner length, walks a list — only acts on contents of the right shape. Every variable-length
+// element of every message is therefore also given contents from a corpus of shapes that occur inside NAS elements:
+// a complete instance of every message type (mandatory part only, and with every optional element), EAP packets
+// (code 0..6 with inner lengths around the element length), length-prefixed lists, PLMN / S-NSSAI lists, and every
+// first octet 0..255 before a counting tail.
+
+var contentCorpusCache []string
+
+func contentCorpus(spec *refcodec.Spec) []string {
+	if contentCorpusCache != nil {
+		return contentCorpusCache
+	}
+	var out []string
+	add := func(b []byte) { out = append(out, string(b)) }
+	for mi := range spec.Messages {
+		m := &spec.Messages[mi]
+		if m.Family != "gmm" && m.Family != "gsm" {
+			continue
+		}
+		base := renderMandatory(m, -1, tok{})
+		add(base)
+		full := append([]byte{}, base...)
+		for _, t := range optTokens(m, false) {
+			if t.Slot >= 0 {
+				full = append(full, renderTok(m, t)...)
+			}
+		}
+		add(full)
+	}
+	// EAP packets: code, identifier, 16-bit inner length, type, data — inner lengths below, at and above the total
+	for code := 0; code <= 6; code++ {
+		for _, total := range []int{4, 5, 12, 40} {
+			for _, inner := range []int{0, 3, 4, 5, total - 4, total - 1, total, total + 1, 0x0100, 0xFFFF} {
+				if inner < 0 {
+					continue
+				}
+				p := make([]byte, total)
+				p[0], p[1], p[2], p[3] = byte(code), 0x2a, byte(inner>>8), byte(inner)
+				for i := 4; i < total; i++ {
+					p[i] = byte(0x30 + i)
+				}
+				add(p)
+			}
+		}
+	}
+	// length-prefixed lists (1..12 entries of 0..4 octets), type-length-value lists, PLMN-shaped triples
+	for _, el := range []int{0, 1, 2, 4} {
+		for _, cnt := range []int{1, 2, 3, 9, 12} {
+			var p []byte
+			for k := 0; k < cnt; k++ {
+				p = append(p, byte(el))
+				for j := 0; j < el; j++ {
+					p = append(p, byte(0x10*k+j+1))
+				}
+			}
+			add(p)
+			add(append([]byte{byte(cnt)}, p...))
+			add(append([]byte{0x80}, p...))
+		}
+	}
+	add([]byte{0x02, 0xf8, 0x39, 0x02, 0xf8, 0x39, 0x13, 0x00, 0x14})
+	for v := 0; v < 256; v++ {
+		add([]byte{byte(v), 1, 2, 3, 4, 5, 6, 7, 8, 9, 10, 11})
+	}
+	contentCorpusCache = out
+	return out
+}
+
+func (x *codecExplorer) contentFamily(m *bind.Msg) {
+	corpus := contentCorpus(x.spec)
+	base := renderMandatory(m, -1, tok{})
+	for i := range m.Slots {
+		s := &m.Slots[i]
+		if s.LenSize == 0 || s.Half || s.Max < 8 {
+			continue
+		}
+		if !x.mine() {
+			continue
+		}
+		if !x.c.Begin("contentsweep", m.Name, map[string]any{"msg": m.Name, "slot": s.Name}) {
+			continue
+		}
+		for _, raw := range corpus {
+			b := []byte(raw)
+			if len(b) > s.Max {
+				b = b[:s.Max]
+			}
+			for len(b) < s.Min {
+				b = append(b, 0)
+			}
+			if len(s.Alts) > 0 {
+				ok := false
+				for _, a := range s.Alts {
+					if a == len(b) {
+						ok = true
+					}
+				}
+				if !ok {
+					continue
+				}
+			}
+			t := tok{Slot: i, L: len(b), Raw: string(b)}
+			var full []byte
+			if s.Optional {
+				full = append(append([]byte{}, base...), renderTok(m, t)...)
+			} else {
+				full = renderMandatory(m, i, t)
+			}
+			x.states++
+			x.trans++
+			x.run1(m, full)
+		}
+		x.c.Tick()
+	}
+}
+
+// The repetition family: the grammar lets an optional element occur any number of times (the last one wins). A decoder
+// that bounds the number of elements it scans, or keeps per-occurrence state in a fixed table, is right for every
+// short message. For the two smallest optional elements of a message: n occurrences (n = 1..40, then 63..65, 127..129,
+// 255..257, 1023..1025) followed by every token of the reduced second-token alphabet (a different-valued duplicate, an
+// element not seen before, …), by every token of one variable-length element's full alphabet (out-of-range lengths,
+// truncations), and cut one octet short.
+func (x *codecExplorer) repetitionFamily(m *bind.Msg, second []tok) {
+	type cand struct {
+		t    tok
+		size int
+	}
+	var cs []cand
+	var varSlot = -1
+	for i := range m.Slots {
+		s := &m.Slots[i]
+		if !s.Optional {
+			continue
+		}
+		if varSlot < 0 && !s.Half && s.LenSize > 0 && s.Min != s.Max {
+			varSlot = i
+		}
+		t := tok{Slot: i, L: lenClasses(s)[0], Pat: 1}
+		if s.Half {
+			t = tok{Slot: i, Pat: 1}
+		}
+		cs = append(cs, cand{t, len(renderTok(m, t))})
+	}
+	if len(cs) == 0 {
+		return
+	}
+	sort.SliceStable(cs, func(a, b int) bool { return cs[a].size < cs[b].size })
+	if len(cs) > 2 {
+		cs = cs[:2]
+	}
+	var counts []int
+	for n := 1; n <= 40; n++ {
+		counts = append(counts, n)
+	}
+	for _, b := range []int{64, 128, 256, 1024} {
+		counts = append(counts, b-1, b, b+1)
+	}
+	tail := append([]tok{}, second...)
+	if varSlot >= 0 {
+		tail = append(tail, slotTokens(m, varSlot, true)...)
+	}
+	base := renderMandatory(m, -1, tok{})
+	for _, c := range cs {
+		if !x.mine() {
+			continue
+		}
+		if !x.c.Begin("repetition", m.Name, map[string]any{"msg": m.Name, "repeated": c.t}) {
+			continue
+		}
+		one := renderTok(m, c.t)
+		for _, n := range counts {
+			head := append([]byte{}, base...)
+			for k := 0; k < n; k++ {
+				head = append(head, one...)
+			}
+			x.states++
+			x.trans += int64(n)
+			x.run1(m, head)
+			for _, t2 := range tail {
+				full := append(append([]byte{}, head...), renderTok(m, t2)...)
+				x.states++
+				x.trans++
+				x.run1(m, full)
+				if len(full) > len(head)+1 {
+					x.run1(m, full[:len(full)-1])
+				}
+			}
+			x.c.Tick()
+		}
+		if x.maxDepth < 1025 {
+			x.maxDepth = 1025
 		}
 	}
 }
